@@ -772,7 +772,7 @@ class Machine:
             return 'ret'
         if op == 'JMP':
             return int(A[0])
-        if op in ('JLT', 'JGT', 'JEQ', 'JNE', 'JLE', 'JGE'):
+        if op in ('JLT', 'JGT', 'JEQ', 'JNE', 'JLE', 'JGE', 'JHI', 'JLS', 'JCS', 'JCC', 'JLO', 'JHS', 'JMI', 'JPL'):
             if self.flags is None:
                 raise AsmUnsupported('conditional jump without a preceding compare at pc %d' % pc)
             if isinstance(self.flags[0], str) and self.flags[0] == 'result':
@@ -790,14 +790,17 @@ class Machine:
             if isinstance(a, int) and isinstance(b, int):
                 sa = a - (1 << 64) if a >> 63 else a
                 sb = b - (1 << 64) if b >> 63 else b
-                c = {'JLT': sa < sb, 'JGT': sa > sb, 'JEQ': sa == sb, 'JNE': sa != sb, 'JLE': sa <= sb, 'JGE': sa >= sb}[op]
+                c = {'JLT': sa < sb, 'JGT': sa > sb, 'JEQ': sa == sb, 'JNE': sa != sb, 'JLE': sa <= sb, 'JGE': sa >= sb,
+                     'JHI': a > b, 'JLS': a <= b, 'JCS': a < b, 'JLO': a < b, 'JCC': a >= b, 'JHS': a >= b, 'JMI': sa - sb < 0, 'JPL': sa - sb >= 0}[op]
             else:
                 if isinstance(a, Addr) or isinstance(b, Addr):
                     raise AsmUnsupported('compare of pointers')
                 x, y = bv(a, 64), bv(b, 64)
                 if TAINT[0]:
                     x, y = z3.BitVec('secret_cmp_a', 64), z3.BitVec('secret_cmp_b', 64)
-                cond = z3.simplify({'JLT': x < y, 'JGT': x > y, 'JEQ': x == y, 'JNE': x != y, 'JLE': x <= y, 'JGE': x >= y}[op])
+                cond = z3.simplify({'JLT': x < y, 'JGT': x > y, 'JEQ': x == y, 'JNE': x != y, 'JLE': x <= y, 'JGE': x >= y,
+                                    'JHI': z3.UGT(x, y), 'JLS': z3.ULE(x, y), 'JCS': z3.ULT(x, y), 'JLO': z3.ULT(x, y), 'JCC': z3.UGE(x, y), 'JHS': z3.UGE(x, y),
+                                    'JMI': (x - y) < 0, 'JPL': (x - y) >= 0}[op])
                 if z3.is_true(cond):
                     c = True
                 elif z3.is_false(cond):
@@ -912,6 +915,120 @@ class Machine:
             else:
                 g[A[1]] = simp(v << n if op == 'SHLQ' else z3.LShR(v, n))
             self.flags = None
+            return None
+        # ---- generic integer layer (not used by the current tree; a changed tree may use it): narrow ALU forms, unary
+        # operators, tests, zero/sign extension, shifts and rotates by an immediate, byte swaps.  Values are ints, z3
+        # terms or (taint mode) opaque secrets; pointers are refused except where noted.
+        m_alu = re.match(r'^(ADD|SUB|AND|OR|XOR)([BWL])$', op)
+        if m_alu:
+            w = {'B': 8, 'W': 16, 'L': 32}[m_alu.group(2)]
+            src, d = A
+            a, b = self.src_val(src, w, pc), self.src_val(d, w, pc)
+            if isinstance(a, Addr) or isinstance(b, Addr):
+                raise AsmUnsupported('narrow arithmetic on a pointer: ' + ins.text)
+            msk = (1 << w) - 1
+            if isinstance(a, int) and isinstance(b, int):
+                r = {'ADD': b + a, 'SUB': b - a, 'AND': b & a, 'OR': b | a, 'XOR': b ^ a}[m_alu.group(1)] & msk
+            elif TAINT[0]:
+                r = SEC(w)
+            else:
+                x, y = bv(b, w), bv(a, w)
+                r = simp({'ADD': x + y, 'SUB': x - y, 'AND': x & y, 'OR': x | y, 'XOR': x ^ y}[m_alu.group(1)])
+            if d in g or d in GPR8:
+                self.set_gpr(d, r, w, zero_extend=(w == 32))
+            else:
+                self.dst_store(d, r, w, pc)
+            self.flags = ('result', r, w) if m_alu.group(1) != 'SUB' else ((b, a) if isinstance(a, int) and isinstance(b, int) else ('result', r, w))
+            return None
+        m_un = re.match(r'^(INC|DEC|NEG|NOT)([BWLQ])$', op)
+        if m_un:
+            w = {'B': 8, 'W': 16, 'L': 32, 'Q': 64}[m_un.group(2)]
+            d = A[0]
+            b = self.src_val(d, w, pc)
+            msk = (1 << w) - 1
+            if isinstance(b, Addr):
+                if m_un.group(1) in ('INC', 'DEC') and w == 64:
+                    r = Addr(b.region, b.off + (1 if m_un.group(1) == 'INC' else -1))
+                    self.dst_store(d, r, 64, pc)
+                    self.flags = None
+                    return None
+                raise AsmUnsupported('unary operator on a pointer: ' + ins.text)
+            if isinstance(b, int):
+                r = {'INC': b + 1, 'DEC': b - 1, 'NEG': -b, 'NOT': ~b}[m_un.group(1)] & msk
+            elif TAINT[0]:
+                r = SEC(w)
+            else:
+                x = bv(b, w)
+                r = simp({'INC': x + 1, 'DEC': x - 1, 'NEG': -x, 'NOT': ~x}[m_un.group(1)])
+            if d in g or d in GPR8:
+                self.set_gpr(d, r, w, zero_extend=(w == 32))
+            else:
+                self.dst_store(d, r, w, pc)
+            if m_un.group(1) != 'NOT':
+                self.flags = ('result', r, w)
+            return None
+        m_t = re.match(r'^TEST([BWLQ])$', op)
+        if m_t:
+            w = {'B': 8, 'W': 16, 'L': 32, 'Q': 64}[m_t.group(1)]
+            a, b = self.src_val(A[0], w, pc), self.src_val(A[1], w, pc)
+            if isinstance(a, Addr) or isinstance(b, Addr):
+                if A[0] == A[1]:
+                    self.flags = ('result', 1, 64)       # a non-nil pointer tested against itself
+                    return None
+                raise AsmUnsupported('test of a pointer: ' + ins.text)
+            if isinstance(a, int) and isinstance(b, int):
+                r = a & b
+            elif TAINT[0]:
+                r = SEC(w)
+            else:
+                r = simp(bv(a, w) & bv(b, w))
+            self.flags = ('result', r, w)
+            return None
+        m_x = re.match(r'^MOV([BWL])([WLQ])(ZX|SX)$', op)
+        if m_x:
+            w = {'B': 8, 'W': 16, 'L': 32}[m_x.group(1)]
+            a = self.src_val(A[0], w, pc)
+            if isinstance(a, Addr):
+                raise AsmUnsupported('extension of a pointer: ' + ins.text)
+            if isinstance(a, int):
+                a &= (1 << w) - 1
+                r = a if m_x.group(3) == 'ZX' or not a >> (w - 1) else (a - (1 << w)) & M64
+            elif TAINT[0]:
+                r = SEC(64)
+            elif isinstance(a, Aff) and m_x.group(3) == 'ZX':
+                r = Aff(64, list(a.v))
+            else:
+                r = simp((z3.ZeroExt if m_x.group(3) == 'ZX' else z3.SignExt)(64 - w, bv(a, w)))
+            g[A[1]] = r if m_x.group(2) == 'Q' or isinstance(r, (Aff,)) or not isinstance(r, int) else r & M32
+            if m_x.group(2) == 'L' and isinstance(r, int):
+                g[A[1]] = r & M32
+            return None
+        m_s = re.match(r'^(SHL|SHR|SAR|ROL|ROR)([LQ])$', op)
+        if m_s and op not in ('SHLQ', 'SHRQ') and A[0].startswith('$'):
+            w = 32 if m_s.group(2) == 'L' else 64
+            k = int(A[0][1:], 0) % w
+            v = self.src_val(A[1], w, pc)
+            if isinstance(v, Addr):
+                raise AsmUnsupported('shift of pointer')
+            msk = (1 << w) - 1
+            if isinstance(v, int):
+                sv = v - (1 << w) if v >> (w - 1) else v
+                r = {'SHL': (v << k) & msk, 'SHR': v >> k, 'SAR': (sv >> k) & msk, 'ROL': ((v << k) | (v >> (w - k))) & msk if k else v, 'ROR': ((v >> k) | (v << (w - k))) & msk if k else v}[m_s.group(1)]
+            elif TAINT[0]:
+                r = SEC(w)
+            else:
+                x = bv(v, w)
+                r = simp({'SHL': x << k, 'SHR': z3.LShR(x, k), 'SAR': x >> k, 'ROL': z3.RotateLeft(x, k), 'ROR': z3.RotateRight(x, k)}[m_s.group(1)])
+            self.set_gpr(A[1], r, w) if A[1] in g else self.dst_store(A[1], r, w, pc)
+            self.flags = None
+            return None
+        if op in ('BSWAPQ', 'BSWAPL'):
+            w = 64 if op == 'BSWAPQ' else 32
+            v = self.get_gpr(A[0], w)
+            if isinstance(v, Addr):
+                raise AsmUnsupported('byte swap of a pointer')
+            cells = self.to_bytes(v, w // 8)
+            self.set_gpr(A[0], self.from_bytes(list(reversed(cells))), w)
             return None
         if op in ('KORTESTW', 'KORTESTB', 'KORTESTQ', 'KORTESTD'):
             w = {'B': 8, 'W': 16, 'D': 32, 'Q': 64}[op[-1]]
